@@ -258,6 +258,9 @@ fn gen_pattern(rng: &mut Rng, allow_all: bool) -> Pat {
     let small = rng.chance(1, 10);
     let (max_runs, max_kleene) = if small && !(partition.is_some() && !negs.is_empty()) { (rng.range(1, 3) as usize, rng.range(1, 3) as u32) } else { (10000, 20) };
     let all_free = steps.iter().all(|s| !s.kleene);
+    // a first-step filter together with an `all` step has no VPL rendering (`sequence()` has no `all`, the derived
+    // form is kept for `all`-free patterns): mostly drop the first filter so that the VPL path sees `all` patterns
+    if !all_free && steps[0].pred.is_some() && n >= 2 && rng.chance(3, 4) { steps[0].pred = None; }
     let all_aliased = steps.iter().all(|s| s.alias.is_some());
     let first_pred = steps[0].pred.is_some();
     let form = if first_pred {
